@@ -117,6 +117,57 @@ func TestVerifC17Ipset(t *testing.T) {
 	n := vEnvInt("VERIF_N", 500)
 	r := rand.New(rand.NewSource(seed))
 	malformed := []string{"", "1", "10.0.0.0", "10.0.0.0/33", "::/129", "10.0.0.0/-1", "10.0.0.256/8", "fe80::1%eth0/64", "1.2.3.4/ 8", "::ffff:1.2.3.4/40x", "/8"}
+	// fixed regression inputs first: the minimal failing inputs of past seeded changes
+	type fixedCase struct {
+		cidrs  []string
+		probes []string
+	}
+	fixed := []fixedCase{
+		{[]string{"2001:db8::/48", "2001:db8::/32"}, []string{"2001:db8:1::1", "2001:db8::1", "2001:db9::1", "2001:db7:ffff:ffff:ffff:ffff:ffff:ffff"}},
+		{[]string{"2001:db8::/32", "2001:db8::/48"}, []string{"2001:db8:1::1", "2001:db8:ffff:ffff:ffff:ffff:ffff:ffff", "2001:db9::"}},
+		{[]string{"::ffff:10.0.0.0/8"}, []string{"2001:db8::1", "10.1.2.3", "::ffff:10.1.2.3", "::1", "ff00::1"}},
+		{[]string{"::ffff:0.0.0.0/64"}, []string{"::1", "0:0:0:1::1", "10.0.0.1", "::ffff:10.0.0.1"}},
+		{[]string{"::ffff:10.0.0.0/104"}, []string{"10.1.2.3", "::ffff:10.1.2.3", "::ffff:11.0.0.0"}},
+		{[]string{"10.0.0.0/8", "10.0.0.0/8", "10.128.0.0/9"}, []string{"9.255.255.255", "10.0.0.0", "10.255.255.255", "11.0.0.0", "::ffff:10.200.0.1"}},
+		{[]string{"0.0.0.0/0"}, []string{"0.0.0.0", "255.255.255.255", "::", "::ffff:1.2.3.4"}},
+		{[]string{"::/0"}, []string{"::", "ffff:ffff:ffff:ffff:ffff:ffff:ffff:ffff", "1.2.3.4", "::ffff:1.2.3.4"}},
+		{[]string{"fe80::/64", "fe80::/63", "fe80:0:0:1::/64"}, []string{"fe80::1", "fe80:0:0:1::1", "fe80:0:0:2::", "fe7f:ffff:ffff:ffff:ffff:ffff:ffff:ffff"}},
+	}
+	for _, fc := range fixed {
+		set, _ := New(fc.cidrs)
+		var good []netip.Prefix
+		for _, c := range fc.cidrs {
+			if p, err := netip.ParsePrefix(c); err == nil {
+				good = append(good, p)
+			}
+		}
+		var pcoq, acoq, adesc []string
+		goFail := ""
+		for _, p := range good {
+			pcoq = append(pcoq, fmt.Sprintf("mk_prefix %v %s %d", p.Addr().Is4(), addrBig(p.Addr()).String(), p.Bits()))
+		}
+		for _, ps := range fc.probes {
+			a := netip.MustParseAddr(ps)
+			got := set.Contains(a)
+			ua := a
+			if ua.Is4In6() {
+				ua = ua.Unmap()
+			}
+			want := false
+			for _, p := range good {
+				if p.Masked().Contains(ua) {
+					want = true
+				}
+			}
+			if got != want && goFail == "" {
+				goFail = fmt.Sprintf("Contains(%s)=%v but naive scan over %v says %v", a, got, fc.cidrs, want)
+			}
+			acoq = append(acoq, fmt.Sprintf("(mk_addr %v %s, %v)", a.Is4(), addrBig(a).String(), got))
+			adesc = append(adesc, fmt.Sprintf("%s=%v", a, got))
+		}
+		tr.emit(map[string]any{"k": "set-fixed-regression", "coq": "CaseSet [" + strings.Join(pcoq, "; ") + "] [" + strings.Join(acoq, "; ") + "]", "go_fail": goFail, "nontrivial": true,
+			"desc": map[string]any{"cidrs": fc.cidrs, "probes": adesc}})
+	}
 	for c := 0; c < n; c++ {
 		var cidrs []string
 		var good []netip.Prefix
